@@ -333,9 +333,20 @@ pub const SIZES: [usize; 22] = [
     2, 64, 4, 30, 32, 34, 62, 66, 126, 128, 130, 190, 192, 194, 256, 258, 318, 320, 322, 6, 96, 160,
 ];
 
+/// Shard sizes at which kernels may switch strategy (cache blocking, strips, tiles): 16 KiB .. 1 MiB and neighbours,
+/// with and without a partial last block, block counts that are and are not multiples of small numbers.
+pub const BIG_SIZES: [usize; 12] = [16384, 16450, 65574, 131_072, 131_074, 131_136, 196_610, 200_000, 262_210, 300_000, 1_000_000, 1_048_578];
+
+pub fn gen_bytes_big(ch: &mut Chooser) -> usize {
+    BIG_SIZES[ch.pick_usize("bytes.bigidx", BIG_SIZES.len())]
+}
+
 /// An even shard size; small index = simple.
 pub fn gen_bytes(ch: &mut Chooser, max: usize) -> usize {
-    let b = if max >= 322 && ch.chance("bytes.giant", 1, 100) {
+    let b = if max >= 322 && ch.chance("bytes.colossal", 1, 300) {
+        // above 128 KiB (only ever combined with tiny counts, see gen_config)
+        BIG_SIZES[3 + ch.pick_usize("bytes.colossalidx", BIG_SIZES.len() - 3)]
+    } else if max >= 322 && ch.chance("bytes.giant", 1, 100) {
         // shards of 16 KiB and more (kernels may switch strategy by shard length)
         [16384usize, 16386, 16450, 20000, 32834, 65574][ch.pick_usize("bytes.giantidx", 6)]
     } else if max >= 322 && ch.chance("bytes.huge", 1, 40) {
